@@ -161,6 +161,9 @@ def run_property(prop, tier="quick", repo="/repo", seed=0, update_baseline=False
                 extra[k] = extra.get(k, 0) + v
             else:
                 extra.setdefault(k, []).append(v)
+    if os.environ.get("VERIF_TIMING"):
+        for o in sorted(outs, key=lambda o: -o["wall"])[:12]:
+            print("TIMING %.1fs paths=%d %s" % (o["wall"], o["paths"], o["unit"]))
     if errors:
         for u, e in errors:
             print("CHECKER-ERROR unit=%s\n%s" % (u, e))
